@@ -6,6 +6,8 @@ E1 + E3: breadth-first search over all interleavings of
     input(chunk_i)     three valid chunks (schema; instances with links; more instances and an
                        identifier) in any order, each at most once, plus a chunk that is rejected
     build              up to 2 (quick) / 3 (thorough) live metamodels, each with its own IntegerGenerator
+                       (main search) or, in the generator family, every pattern of builds with an explicitly
+                       given IntegerGenerator / builds without a generator argument
     mutations of any built metamodel: new, delete, attribute write, relate, unrelate,
                        MetaClass.append_attribute / insert_attribute / delete_attribute,
                        define_unique_identifier, define_class
@@ -17,6 +19,11 @@ deduplicated by canonical state.  After every step, for EVERY live metamodel k
   (ii) differential: they equal those of a replica = a FRESH loader fed exactly the chunks accepted
        before build k, built once, with exactly the mutations applied to M_k replayed on it; the outcome
        (return value / exception class) of every call equals the replica's.
+
+  (iii) id generators: the value the generator of M_k hands out next (peek) is unchanged by a step not addressed
+       to M_k; the generator of M_k is of the class the replica's is, and hands out the same next value when it
+       is an IntegerGenerator (ids drawn from a UUIDGenerator are random: in the generator family they are
+       replaced by place-holders numbered by first occurrence before texts and snapshots are compared).
 
 Identity facts (which attribute lists, key lists, index dictionaries, metaclasses, instances are the same
 object in two metamodels or in a loader statement) are part of the canonical state as the
@@ -35,6 +42,9 @@ ASSUMPTIONS = [
     'observation = xtuml.serialize(metamodel) (or the exception class it raises, e.g. after an attribute was appended to a '
     'class that has instances) plus a snapshot of classes, attributes, identifiers, instances, attribute values and links '
     'taken through the public attributes of MetaModel / MetaClass / Association',
+    'generator family: the same search with the k-th successful build given an explicit IntegerGenerator or no generator '
+    'argument, for every pattern other than all-explicit, to depth 4 (quick) / 5 (thorough); ids >= 2^64 (drawn from a '
+    'UUIDGenerator) are compared by their pattern of equality only',
     'sharing of immutable or never-mutated objects (key lists of associations, identifier tuples) is not a violation: no '
     'operation of the statement can change them; it is recorded in the canonical state only',
 ]
@@ -163,12 +173,48 @@ def snapshot(m):
     return [classes, links]
 
 
-def observe(xtuml, m):
+_UUID_RE = None
+
+
+def mask_fresh(obs):
+    '''Ids drawn from a UUIDGenerator (>= 2^64; every id of the input and of IntegerGenerators is far below) are replaced
+    by place-holders numbered by first occurrence, separately in the text and in the snapshot.'''
+    import re
+    global _UUID_RE
+    if _UUID_RE is None:
+        _UUID_RE = re.compile(r'"([0-9a-fA-F]{8})-([0-9a-fA-F]{4})-([0-9a-fA-F]{4})-([0-9a-fA-F]{4})-([0-9a-fA-F]{12})"')
+    seen = {}
+
+    def sub(mo):
+        v = int(''.join(mo.groups()), 16)
+        if v < 2 ** 64:
+            return mo.group(0)
+        return '"<fresh id %d>"' % seen.setdefault(v, len(seen) + 1)
+    text = _UUID_RE.sub(sub, obs[0])
+    seen2 = {}
+
+    def walk(x):
+        if isinstance(x, list):
+            return [walk(y) for y in x]
+        if isinstance(x, str) and x.isdigit() and len(x) >= 20 and int(x) >= 2 ** 64:
+            return '<fresh id %d>' % seen2.setdefault(x, len(seen2) + 1)
+        return x
+    return [text, walk(obs[1])]
+
+
+def observe(xtuml, m, mask=False):
     try:
         text = xtuml.serialize(m)
     except Exception as e:
         text = 'serialize raises %s' % type(e).__name__
-    return [text, snapshot(m)]
+    obs = [text, snapshot(m)]
+    return mask_fresh(obs) if mask else obs
+
+
+def gen_facts(xtuml, m):
+    '''[class name of the id generator, the value it hands out next when that is deterministic]'''
+    g = m.id_generator
+    return [type(g).__name__, g.peek() if isinstance(g, xtuml.IntegerGenerator) else 'random']
 
 
 def first_diff(a, b):
@@ -191,7 +237,11 @@ def first_diff(a, b):
 class LoaderModel(explorer.Model):
     limit_s = 20.0
 
-    def __init__(self, tier, seed=0, max_mm=None, cap_new=None):
+    def __init__(self, tier, seed=0, max_mm=None, cap_new=None, gens=None):
+        # gens[k]: 'explicit' = the k-th successful build is given its own IntegerGenerator, 'default' = no generator
+        # argument (builds beyond the pattern: explicit)
+        self.gens = list(gens or [])
+        self.mask = 'default' in self.gens
         self.tier = tier
         self.seed = seed
         self.p = PALETTES[seed % len(PALETTES)]
@@ -200,7 +250,17 @@ class LoaderModel(explorer.Model):
         self.cap_new = cap_new or (1 if tier == 'quick' else 2)
 
     def case(self, hist, op):
-        return dict(hist=hist, op=op, tier=self.tier, seed=self.seed, max_mm=self.max_mm, cap_new=self.cap_new)
+        c = dict(hist=hist, op=op, tier=self.tier, seed=self.seed, max_mm=self.max_mm, cap_new=self.cap_new)
+        if self.gens:
+            c['gens'] = self.gens
+        return c
+
+    def gen_mode(self, w):
+        k = len(w.mms)
+        return self.gens[k] if k < len(self.gens) else 'explicit'
+
+    def obs(self, xtuml, m):
+        return observe(xtuml, m, self.mask)
 
     # -- both sides ---------------------------------------------------------
     def build(self, hist):
@@ -232,13 +292,14 @@ class LoaderModel(explorer.Model):
             fresh = xtuml.ModelLoader()
             for i in w.accepted:
                 fresh.input(self.chunks[i])
+            explicit = self.gen_mode(w) == 'explicit'
             try:
-                replica = fresh.build_metamodel(xtuml.IntegerGenerator())
+                replica = fresh.build_metamodel(xtuml.IntegerGenerator()) if explicit else fresh.build_metamodel()
                 exp = 'ok'
             except Exception as e:
                 replica, exp = None, type(e).__name__
             try:
-                m = w.loader.build_metamodel(xtuml.IntegerGenerator())
+                m = w.loader.build_metamodel(xtuml.IntegerGenerator()) if explicit else w.loader.build_metamodel()
                 got = 'ok'
             except Exception as e:
                 m, got = None, type(e).__name__
@@ -358,7 +419,7 @@ class LoaderModel(explorer.Model):
         import xtuml
         mm = []
         for e in w.mms:
-            mm.append([e.chunks, core.h64(json.dumps(observe(xtuml, e.replica))), e.replica.id_generator.peek(),
+            mm.append([e.chunks, core.h64(json.dumps(self.obs(xtuml, e.replica))), gen_facts(xtuml, e.replica),
                        sorted((kd, sum(1 for o in e.muts if o[2] == 'new' and o[3] == kd)) for kd in (self.p['A'], self.p['B']))])
         return json.dumps([w.accepted, w.rejected, mm, self.sharing(w)])
 
@@ -371,7 +432,8 @@ class LoaderModel(explorer.Model):
         def bad(kind, msg, exp=None, got=None):
             ctx.violation('c18:%s:%s' % (name, kind), case, 'history %s, then %s: %s' % (json.dumps(hist), json.dumps(op), msg),
                           exp, got, unit_test=unit_test(self, hist, op))
-        before = [observe(xtuml, e.m) for e in w.mms]
+        before = [self.obs(xtuml, e.m) for e in w.mms]
+        peek_before = [e.m.id_generator.peek() for e in w.mms]
         nbefore = len(w.mms)
         got, exp = self.step(w, op)
         ctx.count('traces')
@@ -382,9 +444,23 @@ class LoaderModel(explorer.Model):
         target = op[1] if op[0] == 'mut' else None
         ok = True
         for k, e in enumerate(w.mms):
-            now = observe(xtuml, e.m)
+            now = self.obs(xtuml, e.m)
             if k < nbefore and k != target:
                 ctx.count('noninterference_comparisons')
+                ctx.count('generator_comparisons')
+                peek_now = e.m.id_generator.peek()
+                if peek_now != peek_before[k]:
+                    what = {'input': 'further input to the loader', 'build': 'another build'}.get(
+                        op[0], 'a change made to metamodel %s' % target)
+                    bad('generator-interference', '%s changes the identifier that metamodel %d (built after chunks %s) hands '
+                        'out next: id_generator.peek() was %r, is %r%s' %
+                        (what, k, e.chunks, peek_before[k], peek_now,
+                         '; it shares its id generator object with metamodel(s) %s' %
+                         [j for j, o in enumerate(w.mms) if j != k and o.m.id_generator is e.m.id_generator]
+                         if any(j != k and o.m.id_generator is e.m.id_generator for j, o in enumerate(w.mms)) else ''),
+                        peek_before[k], peek_now)
+                    ok = False
+                    continue
                 d = first_diff(before[k], now)
                 if d:
                     what = {'input': 'further input to the loader', 'build': 'another build'}.get(
@@ -394,7 +470,14 @@ class LoaderModel(explorer.Model):
                     ok = False
                     continue
             ctx.count('differential_comparisons')
-            want = observe(xtuml, e.replica)
+            gw, gn = gen_facts(xtuml, e.replica), gen_facts(xtuml, e.m)
+            if gw != gn:
+                bad('generator-differs-from-fresh-loader', 'the id generator of metamodel %d (built after chunks %s, own mutations '
+                    '%s) is %s, but %s in a fresh loader fed the same chunks and built the same way' %
+                    (k, e.chunks, json.dumps([o[2:] for o in e.muts]), gn, gw), gw, gn)
+                ok = False
+                continue
+            want = self.obs(xtuml, e.replica)
             d = first_diff(want, now)
             if d:
                 kind = 'later-build' if (op[0] == 'build' and k == len(w.mms) - 1 and k > 0) else 'differs-from-fresh-loader'
@@ -429,12 +512,15 @@ class LoaderModel(explorer.Model):
 def unit_test(model, hist, op):
     lines = ['import xtuml', 'chunks = %r' % (model.chunks,), 'l = xtuml.ModelLoader()', 'm = []',
              'def pool(mm, kind): return list(mm.select_many(kind))']
+    nbuilt = [0]      # (rejected builds do not occur in reported histories of the generator family's patterns)
 
     def stmt(o):
         if o[0] == 'input':
             return 'try: l.input(chunks[%d])\nexcept xtuml.ParsingException: pass' % o[1]
         if o[0] == 'build':
-            return 'm.append(l.build_metamodel(xtuml.IntegerGenerator()))'
+            nbuilt[0] += 1
+            mode = model.gens[nbuilt[0] - 1] if nbuilt[0] <= len(model.gens) else 'explicit'
+            return 'm.append(l.build_metamodel(%s))' % ('xtuml.IntegerGenerator()' if mode == 'explicit' else '')
         k, name, a = o[1], o[2], o[3:]
         mm = 'm[%d]' % k
         if name == 'new':
@@ -463,10 +549,17 @@ def unit_test(model, hist, op):
     lines.append('after = [xtuml.serialize(x) for x in m]')
     lines.append('# compare before/after for the metamodels the step did not address, and each with a fresh loader:')
     lines.append('print([b == a for b, a in zip(before, after)])')
+    lines.append('# and the ids handed out next: [x.id_generator.peek() for x in m] before / after')
     return '\n'.join(lines)
 
 
 DEPTH = {'quick': 6, 'thorough': 7}
+GEN_DEPTH = {'quick': 4, 'thorough': 5}
+
+
+def gen_patterns(n):
+    import itertools
+    return [list(p) for p in itertools.product(('explicit', 'default'), repeat=n) if 'default' in p]
 
 
 def run(ctx):
@@ -478,6 +571,16 @@ def run(ctx):
     hs = sorted(res['seen'].values(), key=lambda h: (len(h), repr(h)))
     for h in (hs[len(hs) // 3], hs[2 * len(hs) // 3], hs[-1]):
         ctx.sample(dict(history=h))
+    # generator family: every pattern of explicit / default generators over the builds
+    for gens in gen_patterns(m.max_mm):
+        gm = LoaderModel(ctx.tier, ctx.seed, gens=gens)
+        label = 'generators-' + '-'.join(g[0] for g in gens)
+        r2 = explorer.bfs(ctx, gm, max_depth=GEN_DEPTH[ctx.tier], chunk=8, label=label)
+        print('  %s: states=%d depth=%d t=%.0fs' % (label, r2['states'], r2['depth'], ctx.elapsed()), flush=True)
+        ctx.count('generator_family_states', r2['states'])
+    ctx.caps_hit[:] = [c for c in ctx.caps_hit if 'depth bound' not in c]
+    ctx.require(ctx.n('generator_family_states') >= 300, 'generator family: too few states (%d)' % ctx.n('generator_family_states'))
+    ctx.require(ctx.n('generator_comparisons') >= 3000, 'too few generator comparisons')
     q = ctx.quick
     ctx.require(res['states'] >= (5000 if q else 50000), 'too few states (%d)' % res['states'])
     for key, least in (('builds_compared', 500), ('builds_after_mutation_of_an_earlier_metamodel', 100),
@@ -490,7 +593,7 @@ def run(ctx):
 
 
 def replay(ctx, case):
-    m = LoaderModel(case.get('tier', 'quick'), case.get('seed', 0), case.get('max_mm'), case.get('cap_new'))
+    m = LoaderModel(case.get('tier', 'quick'), case.get('seed', 0), case.get('max_mm'), case.get('cap_new'), case.get('gens'))
     explorer.replay_case(ctx, m, case['hist'], case.get('op'))
 
 
@@ -516,6 +619,10 @@ def coverage(ctx):
         states_with_several_metamodels=ctx.n('states_with_several_metamodels'),
         identity_facts_recorded=ctx.nd('identity_facts'),
         search=dict(note, bound='depth bound (the stated bound of the tier); closed would mean no new state appeared'),
+        generator_comparisons=ctx.n('generator_comparisons'),
+        generator_family=dict(patterns=gen_patterns(2 if ctx.quick else 3), depth=GEN_DEPTH[ctx.tier],
+                              states=ctx.n('generator_family_states'),
+                              searches=dict((k, v) for k, v in ctx.notes.items() if k.startswith('generators-'))),
         bounds=dict(depth=DEPTH[ctx.tier], live_metamodels=2 if ctx.quick else 3, chunks=3, rejected_chunk=1,
                     new_per_class_and_metamodel=1 if ctx.quick else 2, palette=ctx.seed % len(PALETTES)),
         exhaustive=not ctx.caps_hit,
